@@ -154,9 +154,7 @@ def variant_text(v):
             names[h] = "R1NAME"
         else:
             names[h] = None
-    for h, n in names.items():
-        if n is not None:
-            txt = txt.replace(h, n)
+    txt = re.sub(r"H\d+_", lambda m: names.get(m.group(0)) or m.group(0), txt)
     return txt, names
 
 
